@@ -88,6 +88,9 @@ func Load(repo string) (*Program, error) {
 // FuncName is the package-relative name used in contracts: compare, (*Ptrace).Compare,
 // (Qualifier).Compare, merge$1, init$1.
 func FuncName(fn *ssa.Function) string {
+	if fn.Pkg == nil && fn.Origin() != nil {
+		return FuncName(fn.Origin())
+	}
 	if fn.Pkg == nil {
 		return fn.String()
 	}
